@@ -100,6 +100,13 @@ def Outcome.bind (o : Outcome) (f : List Prim → String → Outcome) : Outcome 
   | .ok p cl => f p cl
   | e => e
 
+/-- `ConstantMulLinearOperator.root_decomposition / root_inv_decomposition` (the latter since /repo c4c33aa): for an
+all-positive constant the call is delegated to the base operator with the same `method` (so the primitives logged are the
+base's, an error of the base propagates) and the scaled root is wrapped in a `RootLinearOperator`; otherwise (`pos = false`:
+some batch member ≤ 0) the base-class method runs on the ConstantMul operator itself (`own`). -/
+def constMulDelegate (pos : Bool) (base own : Outcome) : Outcome :=
+  if pos then base.bind fun p _ => .ok p "Root" else own
+
 /-- Concatenate per-factor outcomes (left to right, as the list comprehension over `linear_ops` runs). -/
 def seqOutcomes (os : List Outcome) (cls : String) : Outcome :=
   os.foldl (fun acc o => acc.bind fun p _ => o.bind fun q _ => .ok (p ++ q) cls) (.ok [] cls)
@@ -170,6 +177,10 @@ def kron [Mul α] {m n p q : Nat} (A : Mat α m n) (B : Mat α p q) : Mat α (m 
 def svdFromSymeig [Mul α] {n : Nat} (sign abs : α → α) (Q : Mat α n n) (w : Fin n → α) :
     Mat α n n × (Fin n → α) × Mat α n n :=
   (fun i j => Q i j * sign (w j), fun j => abs (w j), Q)
+
+/-- `ConstantMulLinearOperator(base_root, s)` as a dense matrix: every entry times the scalar (`s = c ** 0.5` for the root,
+`s = c ** -0.5` for the inverse root). -/
+def constMulRoot [Mul α] {n k : Nat} (s : α) (R : Mat α n k) : Mat α n k := fun i j => s * R i j
 
 /-- Column scaling `evecs * v.unsqueeze(-2)`. -/
 def scaleCols [Mul α] {n k : Nat} (Q : Mat α n k) (v : Fin k → α) : Mat α n k := fun i j => Q i j * v j
